@@ -31,6 +31,8 @@ type Case struct {
 	Second string `json:"second,omitempty"`
 	// multi mode: file kinds formatted by ONE invocation `falco fmt -w a.vcl b.vcl ...` (Syscall/When: optional crash point)
 	Files []string `json:"files,omitempty"`
+	// the target named on the command line is a symbolic link to real/f.vcl
+	Link bool `json:"link,omitempty"`
 }
 
 func bigFile() string {
@@ -173,7 +175,17 @@ func histories() map[string]map[string]int {
 func gen16(tier string, emit func(Case)) {
 	hist := histories()
 	genMulti(hist, emit)
+	emit0 := emit
 	for _, fk := range fileKinds {
+		// small files are also formatted through a symbolic link (clean, every fault, crash point and file-size limit)
+		linked := fk.name == "small" || fk.name == "with-comments"
+		emit := func(c Case) {
+			emit0(c)
+			if linked && c.Mode != "history" && c.Mode != "readonly-file" && c.Mode != "readonly-dir" {
+				c.Link = true
+				emit0(c)
+			}
+		}
 		emit(Case{File: fk.name, Mode: "clean"})
 		emit(Case{File: fk.name, Mode: "readonly-file"})
 		emit(Case{File: fk.name, Mode: "readonly-dir"})
@@ -377,7 +389,15 @@ func run(c Case) engine.Result {
 	}()
 	orig := []byte(kind(c.File))
 	target := filepath.Join(dir, "f.vcl")
-	os.WriteFile(target, orig, 0o644)
+	if c.Link {
+		os.Mkdir(filepath.Join(dir, "real"), 0o755)
+		os.WriteFile(filepath.Join(dir, "real", "f.vcl"), orig, 0o644)
+		if err := os.Symlink(filepath.Join("real", "f.vcl"), target); err != nil {
+			panic(err)
+		}
+	} else {
+		os.WriteFile(target, orig, 0o644)
+	}
 	// expected output: what `falco fmt FILE` prints (or failure)
 	var expected []byte
 	baseOK := false
@@ -454,9 +474,13 @@ func run(c Case) engine.Result {
 	case "fsize":
 		where = "fsize " + region(c.Limit, len(expected))
 	}
+	fileClass := c.File
+	if c.Link {
+		fileClass += "@symlink"
+	}
 	fail := func(kindOf, what string) {
 		res.Findings = append(res.Findings, engine.Finding{
-			Class:  fmt.Sprintf("%s|%s|%s", kindOf, c.File, where),
+			Class:  fmt.Sprintf("%s|%s|%s", kindOf, fileClass, where),
 			What:   fmt.Sprintf("file kind %s, %s (exit %d, killed %v): %s; file now holds %d bytes (%s), original %d bytes, formatted %d bytes", c.File, describe(c), exit, killed, what, len(after), state, len(orig), len(expected)),
 			Detail: map[string]string{"output": trunc(out), "after": trunc(string(after))},
 		})
@@ -470,6 +494,12 @@ func run(c Case) engine.Result {
 		fail("succeeded-but-unchanged", "the command reported success but the file was not rewritten")
 	case !killed && exit == 0 && !baseOK:
 		fail("succeeded-on-unformattable", "`falco fmt FILE` fails for this file but `fmt -w` reports success")
+	}
+	if c.Link && len(res.Findings) == 0 {
+		// the file the link pointed to is the user's too: original or formatted, never anything else
+		if b, err := os.ReadFile(filepath.Join(dir, "real", "f.vcl")); err != nil || !(bytes.Equal(b, orig) || (baseOK && bytes.Equal(b, expected))) {
+			fail("damaged-link-target", "the file the symbolic link pointed to holds neither its original bytes nor the formatted text")
+		}
 	}
 	_ = leftovers
 	return res
@@ -530,10 +560,10 @@ func init() {
 	engine.Register(engine.Spec[Case]{
 		ID:    "C16",
 		Level: "fault_enumeration",
-		Rule: "for 8 file contents (small / already formatted / no trailing newline / with comments / statement-only snippet / syntactically invalid / empty / 24 KB) the syscall history of the real `falco fmt -w FILE` is recorded under strace; then every invocation number of every file-related syscall in that history (openat, read, write, close, newfstatat, rename*, fsync, fchmod*, unlinkat, ftruncate - the file-modifying ones from the first invocation, the read-only ones over their last 12 invocations in the quick tier) is re-run once per errno of its menu (fault) and once with SIGKILL delivered on entry (crash point = every prefix of the history), plus every RLIMIT_FSIZE from 0 to the output size + 8 (stride 97 for the big file in the quick tier), a target that cannot be opened for writing and a directory in which nothing can be created; after each run the file must hold its original bytes or exactly what `falco fmt FILE` prints; non-zero exit => original; zero exit => formatted. non-trivial = every run; distinct = distinct (file kind, fault)",
+		Rule: "for 8 file contents (small / already formatted / no trailing newline / with comments / statement-only snippet / syntactically invalid / empty / 24 KB) the syscall history of the real `falco fmt -w FILE` is recorded under strace; then every invocation number of every file-related syscall in that history (openat, read, write, close, newfstatat, rename*, fsync, fchmod*, unlinkat, ftruncate - the file-modifying ones from the first invocation, the read-only ones over their last 12 invocations in the quick tier) is re-run once per errno of its menu (fault) and once with SIGKILL delivered on entry (crash point = every prefix of the history), plus every RLIMIT_FSIZE from 0 to the output size + 8 (stride 97 for the big file in the quick tier), a target that cannot be opened for writing and a directory in which nothing can be created; the small and the with-comments file are run through all of this a second time with the command-line target being a symbolic link to real/f.vcl (what the link names and what it pointed to are both checked); after each run the file must hold its original bytes or exactly what `falco fmt FILE` prints; non-zero exit => original; zero exit => formatted. non-trivial = every run; distinct = distinct (file kind, fault)",
 		Gen:  gen16,
 		Key: func(c Case) string {
-			return fmt.Sprintf("%s|%s|%s|%d|%s|%d|%s|%s", c.File, c.Mode, c.Syscall, c.When, c.Errno, c.Limit, c.Second, strings.Join(c.Files, ","))
+			return fmt.Sprintf("%s|%s|%s|%d|%s|%d|%s|%s|%v", c.File, c.Mode, c.Syscall, c.When, c.Errno, c.Limit, c.Second, strings.Join(c.Files, ","), c.Link)
 		},
 		Run:     run,
 		Workers: 16,
